@@ -1,3 +1,4 @@
+import Mdsort.Proofs.Opts
 import Mdsort.Proofs.Lex
 import Mdsort.Proofs.World
 import Mdsort.Proofs.ConfErrors
@@ -6,7 +7,6 @@ import Mdsort.Proofs.MainText
 import Mdsort.Proofs.MainTextMacros
 import Mdsort.Proofs.MainTextLex
 import Mdsort.Proofs.MainTextLexTree
-import Mdsort.Proofs.Opts
 
 /-!
 # C14 - a configuration is accepted or rejected as a whole, and the parser is total
